@@ -1,11 +1,16 @@
-(** * CoverCmd: the coverage invariant is preserved by the non-collector activations that are
-    not commands (script, store, unbag, cleaning action, the drop glues, [Cc::drop]).
+(** * CoverCmd: the coverage invariant is preserved by every non-collector activation: script,
+    store, unbag, cleaning action, the drop glues, [Cc::drop] ([cv_step_*]) and the thirty commands
+    ([cv_cmd_*], [nsimp_cmd_*]); assembled in [cv_step_noncollector].
 
-    Every lemma follows the normal-return path of the corresponding [step_*] definition: the
-    layer-1 knowledge ([SafePrims.Cur]: [SInv] with exact counts, frames) is re-established at
-    each recursive call from the primitives of SafePrims.v, the coverage knowledge [Cv] from the
-    primitives of CoverStep.v.  Outcomes other than [ONormal] carry no obligation (a panic makes
-    [no_panic_yet] false at top level). *)
+    Every lemma follows the normal-return path of the corresponding [step_*] / [cmd_*] definition:
+    the layer-1 knowledge ([SafePrims.Cur]: [SInv] with exact counts, frames) is re-established at
+    each recursive call from the primitives of SafePrims.v (so that the hypotheses on [rec] apply),
+    the coverage knowledge [Cv] from the primitives of CoverStep.v.  Outcomes other than [ONormal]
+    carry no obligation (a panic makes [no_panic_yet] false at top level, [exec_top] logs
+    [ERes RPanicked] / [EBad Abort] / [EBad Fuel]).
+
+    The only place where [rust_cmd] is used is [cv_cmd_move] (the holder of the destination field
+    must still be held by its slot after the source slot was emptied). *)
 From Coq Require Import NArith Bool List Lia.
 From stdpp Require Import base list option list_numbers.
 From RecordUpdate Require Import RecordSet.
@@ -1506,7 +1511,7 @@ Section NC.
       destruct (sub E (KDropCc mo) m4 m5 eq_refl (nb C4) (inv C4) Hown (conj V4 I) Hdc) as [_ V5]. apply Cv_ok, V5. }
     destruct (sv_E _ _ _ _ _ (inv C2) mo) as (mx & Hmx & Hbmx); [left|]. rewrite Hmx.
     destruct (o_mborrowed mx); [apply (Hdrop m1 C2 Hi1 V2)|].
-    pose proof (Cur_upd_map K true E m Hnb HI true true (mo :: E) m1 mo (fun x => x <| o_mborrowed := true |>) mx C2 Hmx Hbmx ltac:(intros z; repeat split)) as C3.
+    pose proof (Cur_upd_map K E m true true (mo :: E) m1 mo (fun x => x <| o_mborrowed := true |>) mx C2 Hmx Hbmx ltac:(intros z; repeat split)) as C3.
     set (m2 := upd mo (fun x => x <| o_mborrowed := true |>) m1) in *.
     assert (V3 : Cv (mo :: E) A [] m2) by (eapply Cv_nsimp0; [apply nsimp_upd_same; intros y; repeat split | exact V2]).
     assert (Hi2 : inD m2 mo = false) by exact Hi1.
@@ -1527,7 +1532,7 @@ Section NC.
       { intros [= <-]. auto. }
       destruct (o_mslots mx !! cr_slot cr) as [[|aid script]|]; try exact (Hsame Hres).
       destruct (decide (aid = cr_aid cr)); [|exact (Hsame Hres)].
-      pose proof (Cur_upd_map K true E m Hnb HI true true (mo :: E) m2 mo (fun x => x <| o_mslots ::= <[cr_slot cr := MVacant]> |> <| o_mfree ::= cons (cr_slot cr) |>) mx2 C3 Hmx2 Hbmx ltac:(intros z; repeat split)) as C3'.
+      pose proof (Cur_upd_map K E m true true (mo :: E) m2 mo (fun x => x <| o_mslots ::= <[cr_slot cr := MVacant]> |> <| o_mfree ::= cons (cr_slot cr) |>) mx2 C3 Hmx2 Hbmx ltac:(intros z; repeat split)) as C3'.
       match type of Hres with rec _ ?mm = _ => set (m2' := mm) in * end.
       assert (V3' : Cv (mo :: E) A [] m2') by (eapply Cv_nsimp0; [apply nsimp_upd_same; intros y; repeat split | exact V3]).
       destruct (sub (mo :: E) (KCleanRun mo aid script) m2' m3 eq_refl (nb C3') (inv C3') I (conj V3' I) Hres) as [HP V4].
@@ -1549,7 +1554,63 @@ Section NC.
     destruct r; try (cbn [fst snd]; discriminate); try (intros Hn; destruct (unwinding_not_normal _ _ Hn)).
     destruct (Hact m3 eq_refl) as (C4 & Hi3 & V4).
     destruct (sv_E _ _ _ _ _ (inv C4) mo) as (my & Hmy & Hbmy); [left|].
-    pose proof (Cur_upd_map K true E m Hnb HI true true (mo :: E) m3 mo (fun x => x <| o_mborrowed := false |>) my C4 Hmy Hbmy ltac:(intros z; repeat split)) as C5.
+    pose proof (Cur_upd_map K E m true true (mo :: E) m3 mo (fun x => x <| o_mborrowed := false |>) my C4 Hmy Hbmy ltac:(intros z; repeat split)) as C5.
     apply (Hdrop _ C5); [exact Hi3|]. eapply Cv_nsimp0; [apply nsimp_upd_same; intros y; repeat split | exact V4].
+  Qed.
+
+  (** ** All commands, all non-collector activations *)
+  Lemma cv_step_cmd E self c m :
+    Pre K PreC true E (KCmd self c) m -> BufBase.Ibuf K A m -> CvPre E A (KCmd self c) m ->
+    (step_cmd K P rec self c m).2 = ONormal -> CvPost E A (KCmd self c) (step_cmd K P rec self c m).1.
+  Proof.
+    rewrite Pre_nc by reflexivity. cbn [own_of app]. intros (Hnb & HI & Hs) HB [V Hr].
+    change (Cv E A [] m) in V. unfold CvPost. cbn [postA].
+    destruct c; cbn [step_cmd].
+    - apply cv_cmd_new; assumption.
+    - apply cv_cmd_clone; assumption.
+    - apply cv_cmd_drop; assumption.
+    - apply cv_cmd_move; assumption.
+    - intros _. apply cv_cmd_mark_alive; assumption.
+    - apply cv_cmd_collect; assumption.
+    - intros _. apply cv_cmd_downgrade; assumption.
+    - apply cv_cmd_upgrade; assumption.
+    - intros _. apply (cv_pure E self (CWNew w) m _ (nsimp_cmd_w_new self w m) V).
+    - intros _. apply (cv_pure E self (CWClone src dst) m _ (nsimp_cmd_w_clone self src dst m) V).
+    - intros _. apply (cv_pure E self (CWDrop w) m _ (nsimp_cmd_w_drop self w m) V).
+    - intros _. apply cv_cmd_try_unwrap; assumption.
+    - apply cv_cmd_drop_value; assumption.
+    - intros _. apply (cv_pure E self (CFinAgain l) m _ (nsimp_cmd_fin_again self l m) V).
+    - apply cv_cmd_new_cyclic; assumption.
+    - apply cv_cmd_register; assumption.
+    - apply cv_cmd_clean; assumption.
+    - intros _. apply (cv_pure E self (CCDrop c) m _ (nsimp_cmd_c_drop self c m) V).
+    - intros _. apply cv_cmd_bag; assumption.
+    - apply cv_cmd_unbag; assumption.
+    - intros _. apply (cv_pure E self (CBorrow n) m _ (nsimp_cmd_borrow self n m) V).
+    - intros _. apply cv_cmd_unborrow; assumption.
+    - intros _. apply (cv_pure E self (CCfgAuto b) m _ (nsimp_cmd_cfg_auto self b m) V).
+    - intros _. apply (cv_pure E self (CCfgPercent num e) m _ (nsimp_cmd_cfg_percent self num e m) V).
+    - intros _. apply (cv_pure E self (CCfgBuffered n) m _ (nsimp_cmd_cfg_buffered self n m) V).
+    - intros _. apply (cv_pure E self (CArm k n) m _ (nsimp_cmd_arm self k n m) V).
+    - intros _. apply (cv_pure E self CPanic m _ (nsimp_cmd_panic self m) V).
+    - intros _. apply (cv_pure E self (CObs l) m _ (nsimp_cmd_obs self l m) V).
+    - intros _. apply (cv_pure E self (CWObs w) m _ (nsimp_cmd_w_obs self w m) V).
+    - intros _. apply (cv_pure E self CSObs m _ (nsimp_cmd_s_obs self m) V).
+  Qed.
+
+  Theorem cv_step_noncollector E c m :
+    noncollector c = true -> Pre K PreC true E c m -> BufBase.Ibuf K A m -> CvPre E A c m ->
+    (step K P rec c m).2 = ONormal -> CvPost E A c (step K P rec c m).1.
+  Proof.
+    destruct c; cbn [noncollector step]; try discriminate; intros _ Hpre HB V.
+    - apply cv_step_cmd; assumption.
+    - apply cv_step_script; assumption.
+    - apply cv_step_store; assumption.
+    - apply cv_step_drop_cc; assumption.
+    - apply cv_step_drop_value; assumption.
+    - apply cv_step_drop_fields; assumption.
+    - apply cv_step_drop_map_slots; assumption.
+    - apply cv_step_unbag; assumption.
+    - apply cv_step_clean_run; assumption.
   Qed.
 End NC.
